@@ -42,7 +42,7 @@ theorem stateFn_plain_byte {sd : StateDef} {m : M κ} {b : UInt8} {arm : Arm}
     stateFn env inp m =
       ((runBody env inp arm.body { m with c := { m.c with nextPos := m.c.nextPos + 1 } }).1,
        (runBody env inp arm.body { m with c := { m.c with nextPos := m.c.nextPos + 1 } }).2.1) := by
-  rw [stateFn_split, hsd]
+  rw [stateFn_preConsume, hsd]
   have hpre : preStep env inp sd m = (m, none) := by unfold preStep; simp [he]
   simp only [hpre]
   unfold consumeStep
@@ -58,7 +58,7 @@ theorem stateFn_memchr_lt {sd : StateDef} {m : M κ} {arm : Arm}
     stateFn env inp m =
       ((runBody env inp arm.body { m with c := { m.c with nextPos := m.c.nextPos + 1 } }).1,
        (runBody env inp arm.body { m with c := { m.c with nextPos := m.c.nextPos + 1 } }).2.1) := by
-  rw [stateFn_split, hsd]
+  rw [stateFn_preConsume, hsd]
   have hpre : preStep env inp sd m = (m, none) := by unfold preStep; simp [he]
   simp only [hpre]
   unfold consumeStep
@@ -539,7 +539,7 @@ hash; the rest of the arm (`emit_tag`, if any, and the transition) follows -/
 theorem relex_step_fin (hrel : RelexOk env.tbl L TT S = true)
     {G : RG} (hG : RGOk env.tbl L S G) {c : Common} {l : LexRegs} {x : Ctx κ}
     (h : RelexHead env.tbl L G inp c l G.H) :
-    (∃ e, (stateFn env inp (⟨c, .lexer l, x⟩ : M κ)).2 = some (.err e) ∧
+    ((stateFn env inp (⟨c, .lexer l, x⟩ : M κ)).2 = some (.err (.panic "debug_assert: End tag should exist at this point")) ∧
       (stateFn env inp (⟨c, .lexer l, x⟩ : M κ)).1.x = x) ∨
     (∃ (l1 : LexRegs) (q : ActSeq) (A' : Arm), selArm env.tbl G.sfin G.term = some A' ∧ q ∈ A'.body.seqs ∧
       finishCalls q.calls = true ∧ c.state = G.sfin ∧
